@@ -543,6 +543,16 @@ Proof. congruence. Qed.
 Lemma Some_inj {A} (a b : A) : Some a = Some b -> a = b.
 Proof. congruence. Qed.
 
+Lemma spec_ckd_priv_soft x i x' : spec_ckd_priv P x i = Some x' -> i < 2^31 ->
+  x_kL x' = 8 * zL_of (pub_Z (neuter P x) i) + x_kL x /\ x_c x' = skipn 32 (pub_C (neuter P x) i).
+Proof.
+  unfold spec_ckd_priv, spec_Z_priv, index_bound, hardened_threshold. intros H Hi.
+  destruct (2^32 <=? i); [discriminate|].
+  replace (i <? 2^31) with true in H by (symmetry; apply N.ltb_lt; exact Hi).
+  destruct (is_identity P _); [discriminate|]. apply Some_inj in H. subst x'.
+  unfold pub_Z, pub_C, neuter, xprv_pub. cbn [x_kL x_c p_A p_c]. split; reflexivity.
+Qed.
+
 (* public-only derivation of a non-hardened child agrees with private derivation *)
 Lemma pub_priv_agree w x index hardened wp ws :
   wf_priv w x -> 0 < x_kL x -> x_kL x + 2^227 <= 2^255 ->
@@ -554,18 +564,16 @@ Proof.
   intros Hwf Hpos Hb Hp Hs.
   rewrite (derive_public_spec w _ index hardened (wf_priv_pub w x Hwf)) in Hp. cbv zeta in Hp.
   rewrite (derive_private_spec w x index hardened Hwf Hpos Hb) in Hs.
-  set (iz := eff_index index hardened) in *. set (i := Z.to_N iz) in *.
-  destruct (in_index_range iz) eqn:Hr; [|discriminate].
-  destruct (i <? 2^31) eqn:Ei; [|discriminate].
-  destruct ((zL_of (pub_Z (neuter P x) i) =? 0) || _); [discriminate|]. apply Ok_inj in Hp. subst wp.
-  unfold spec_ckd_priv, spec_Z_priv, index_bound, hardened_threshold in Hs.
-  destruct (2^32 <=? i); [discriminate|]. rewrite Ei in Hs.
-  destruct (is_identity P _); [discriminate|]. apply Ok_inj in Hs. subst ws.
-  unfold pub_child, priv_child, pub_Z, pub_C, neuter, xprv_pub.
-  cbn [w_pub w_cc w_xprv x_kL x_c p_A p_c].
-  repeat split.
-  - rewrite (N.add_comm _ (x_kL x)), smulB_add. reflexivity.
-  - unfold in_index_range in Hr. subst i. lia.
+  destruct (in_index_range (eff_index index hardened)) eqn:Hr; [|discriminate Hp].
+  destruct (Z.to_N (eff_index index hardened) <? 2^31) eqn:Ei; [|discriminate Hp].
+  apply N.ltb_lt in Ei.
+  destruct (spec_ckd_priv P x (Z.to_N (eff_index index hardened))) as [x'|] eqn:Ec; [|discriminate Hs].
+  destruct (spec_ckd_priv_soft _ _ _ Ec Ei) as (HkL & Hc).
+  apply Ok_inj in Hs. subst ws.
+  destruct (_ || _) in Hp; [discriminate Hp|]. apply Ok_inj in Hp. subst wp.
+  unfold pub_child, priv_child. cbn [w_pub w_cc w_xprv p_A p_c].
+  rewrite HkL, Hc, (N.add_comm _ (x_kL x)), smulB_add.
+  repeat split. unfold in_index_range in Hr. lia.
 Qed.
 
 (* if the private step succeeds, the public step succeeds too unless ZL = 0 or (8 ZL)·B is the identity *)
@@ -579,7 +587,204 @@ Proof.
   rewrite (derive_public_spec w _ index hardened (wf_priv_pub w x Hwf)). cbv zeta. fold i.
   replace (in_index_range (eff_index index hardened)) with true by (unfold in_index_range; lia).
   replace (i <? 2^31) with true by (subst i; lia).
-  rewrite Hi. replace (zL_of (pub_Z (neuter P x) i) =? 0) with false by lia. eauto.
+  rewrite Hi. replace (zL_of (pub_Z (neuter P x) i) =? 0) with false by lia. cbn [orb]. eauto.
 Qed.
 
 End Refinement.
+
+(* ================= path strings ================= *)
+Definition dval (l : str) (a : N) : N := fold_left (fun a c => 10 * a + digit_val c) l a.
+Definition all_digits (l : str) : Prop := Forall (fun c => is_digit c = true) l.
+
+Lemma digit_char_ok d : d < 10 -> is_digit (digit_char d) = true /\ digit_val (digit_char d) = d.
+Proof.
+  intros H. unfold is_digit, digit_val, digit_char.
+  rewrite N_ascii_embedding by lia. cbv zeta. split; [|lia].
+  apply andb_true_iff. split; apply N.leb_le; lia.
+Qed.
+
+Lemma render_fuel_spec : forall f n acc, (0 < f)%nat -> n < 10 ^ N.of_nat f ->
+  exists ds, render_dec_fuel f n acc = ds ++ acc /\ ds <> [] /\ all_digits ds
+             /\ forall a, dval ds a = a * 10 ^ N.of_nat (length ds) + n.
+Proof.
+  induction f as [|f IH]; intros n acc Hf Hn; [lia|].
+  cbn [render_dec_fuel].
+  assert (Hd : n mod 10 < 10) by (apply N.mod_upper_bound; lia).
+  destruct (digit_char_ok _ Hd) as (D1 & D2).
+  destruct (n <? 10) eqn:E.
+  - apply N.ltb_lt in E. exists [digit_char (n mod 10)]. repeat split.
+    + discriminate.
+    + constructor; [exact D1|constructor].
+    + intros a. cbn. rewrite D2, N.mod_small by exact E. lia.
+  - apply N.ltb_ge in E.
+    assert (Hf' : (0 < f)%nat).
+    { destruct f; [|lia]. cbn in Hn. lia. }
+    assert (Hn' : n / 10 < 10 ^ N.of_nat f).
+    { rewrite Nnat.Nat2N.inj_succ, N.pow_succ_r' in Hn. apply N.div_lt_upper_bound; lia. }
+    destruct (IH (n / 10) (digit_char (n mod 10) :: acc) Hf' Hn') as (ds & H1 & H2 & H3 & H4).
+    exists (ds ++ [digit_char (n mod 10)]). repeat split.
+    + rewrite H1, <- app_assoc. reflexivity.
+    + destruct ds; discriminate.
+    + apply Forall_app. split; [exact H3|]. constructor; [exact D1|constructor].
+    + intros a. unfold dval in *. rewrite fold_left_app, H4. cbn [fold_left]. rewrite D2.
+      rewrite app_length. cbn [length]. rewrite Nat.add_1_r, Nnat.Nat2N.inj_succ, N.pow_succ_r'.
+      pose proof (N.div_mod n 10). lia.
+Qed.
+
+Lemma render_dec_spec n :
+  render_dec n <> [] /\ all_digits (render_dec n) /\ dval (render_dec n) 0 = n.
+Proof.
+  unfold render_dec.
+  assert (Hn : n < 10 ^ N.of_nat (S (N.to_nat (N.log2 n)))).
+  { rewrite Nnat.Nat2N.inj_succ, Nnat.N2Nat.id.
+    destruct (N.eq_dec n 0) as [->|Hz]; [cbn; lia|].
+    assert (n < 2 ^ N.succ (N.log2 n)) by (apply N.log2_spec; lia).
+    assert (2 ^ N.succ (N.log2 n) <= 10 ^ N.succ (N.log2 n)) by (apply N.pow_le_mono_l; lia).
+    lia. }
+  destruct (render_fuel_spec _ n [] (Nat.lt_0_succ _) Hn) as (ds & H1 & H2 & H3 & H4).
+  rewrite H1, app_nil_r. repeat split; try assumption. rewrite H4. lia.
+Qed.
+
+Lemma digits_us_digits : forall ds acc flag, all_digits ds -> (ds <> [] \/ flag = true) ->
+  digits_us ds acc flag = Some (dval ds acc).
+Proof.
+  induction ds as [|c ds IH]; intros acc flag Hd Hne.
+  - destruct Hne as [H|->]; [congruence|reflexivity].
+  - inversion Hd as [|? ? Hc Hds]; subst. cbn [digits_us]. rewrite Hc.
+    rewrite IH by auto. reflexivity.
+Qed.
+
+Lemma digit_not c x : is_digit c = true -> is_digit x = false -> Ascii.eqb c x = false.
+Proof.
+  intros H1 H2. destruct (Ascii.eqb c x) eqn:E; [|reflexivity].
+  apply Ascii.eqb_eq in E. subst. congruence.
+Qed.
+
+Lemma lstrip_sp_digit c r : is_digit c = true -> lstrip_sp (c :: r) = c :: r.
+Proof.
+  intros H. cbn [lstrip_sp]. unfold is_space. unfold is_digit in H.
+  replace (N_of_ascii c =? 32) with false by lia. reflexivity.
+Qed.
+
+Lemma strip_sp_digits ds : all_digits ds -> strip_sp ds = ds.
+Proof.
+  intros H. unfold strip_sp.
+  assert (L : forall l, all_digits l -> lstrip_sp l = l).
+  { intros [|c r] Hl; [reflexivity|]. inversion Hl; subst. now apply lstrip_sp_digit. }
+  rewrite (L ds H). rewrite L; [apply rev_involutive|].
+  apply Forall_rev. exact H.
+Qed.
+
+Lemma py_int_digits ds : ds <> [] -> all_digits ds -> py_int ds = Some (Z.of_N (dval ds 0)).
+Proof.
+  intros Hne Hd. unfold py_int. rewrite strip_sp_digits by exact Hd.
+  destruct ds as [|c r]; [congruence|].
+  inversion Hd as [|? ? Hc Hr]; subst.
+  rewrite (digit_not c "-"%char Hc eq_refl), (digit_not c "+"%char Hc eq_refl).
+  rewrite digits_us_digits by auto. reflexivity.
+Qed.
+
+Lemma py_int_render n : py_int (render_dec n) = Some (Z.of_N n).
+Proof.
+  destruct (render_dec_spec n) as (H1 & H2 & H3).
+  rewrite py_int_digits by assumption. now rewrite H3.
+Qed.
+
+Lemma ends_with_quote_digits ds : all_digits ds -> ends_with_quote ds = false.
+Proof.
+  intros H. unfold ends_with_quote. apply Forall_rev in H.
+  destruct (rev ds) as [|c r]; [reflexivity|]. inversion H; subst.
+  now apply digit_not.
+Qed.
+
+Lemma ends_with_quote_app ds : ends_with_quote (ds ++ ["'"%char]) = true.
+Proof. unfold ends_with_quote. rewrite rev_app_distr. reflexivity. Qed.
+
+Definition no_slash (s : str) : Prop := Forall (fun c => Ascii.eqb c slash = false) s.
+
+Lemma split_noslash : forall a cur rest, no_slash a ->
+  split_slash (a ++ rest) cur = split_slash rest (rev a ++ cur).
+Proof.
+  induction a as [|c a IH]; intros cur rest H; [reflexivity|].
+  inversion H as [|? ? Hc Ha]; subst. cbn [app split_slash]. rewrite Hc, IH by exact Ha.
+  cbn [rev]. now rewrite <- app_assoc.
+Qed.
+
+Lemma split_join : forall comps, comps <> [] -> Forall no_slash comps ->
+  split_slash (join_slash comps) [] = comps.
+Proof.
+  induction comps as [|a comps IH]; intros Hne H; [congruence|].
+  inversion H as [|? ? Ha Hr]; subst.
+  destruct comps as [|b comps].
+  - cbn [join_slash]. rewrite <- (app_nil_r a) at 1. rewrite split_noslash by exact Ha.
+    cbn [split_slash]. now rewrite app_nil_r, rev_involutive.
+  - change (join_slash (a :: b :: comps)) with (a ++ slash :: join_slash (b :: comps)).
+    rewrite split_noslash by exact Ha. cbn [split_slash].
+    rewrite Ascii.eqb_refl, app_nil_r, rev_involutive. f_equal.
+    apply IH; [discriminate|exact Hr].
+Qed.
+
+Lemma render_step_shape s :
+  exists c r, render_step s = c :: r /\ is_digit c = true /\ no_slash (render_step s).
+Proof.
+  destruct s as [n h]. unfold render_step. cbn [fst snd].
+  destruct (render_dec_spec n) as (H1 & H2 & _).
+  destruct (render_dec n) as [|c r] eqn:E; [congruence|].
+  inversion H2 as [|? ? Hc Hr]; subst.
+  exists c, (r ++ (if h then ["'"%char] else [])). repeat split; [exact Hc|].
+  change (c :: r ++ (if h then ["'"%char] else [])) with ((c :: r) ++ (if h then ["'"%char] else [])).
+  apply Forall_app. split.
+  - eapply Forall_impl; [|exact H2]. intros a Ha. now apply digit_not.
+  - destruct h; repeat constructor.
+Qed.
+
+Lemma lstrip_m_slash_digit c r : is_digit c = true -> lstrip_m_slash (c :: r) = c :: r.
+Proof.
+  intros H. cbn [lstrip_m_slash].
+  rewrite (digit_not c "m"%char H eq_refl), (digit_not c slash H eq_refl). reflexivity.
+Qed.
+
+Section PathString.
+Variable P : prims.
+
+Definition step_fun (private : bool) (acc : result wallet) (s : N * bool) : result wallet :=
+  bind acc (fun w => derive P w (Z.of_N (fst s)) private (snd s)).
+
+Lemma derive_component_render private acc s :
+  derive_component P private acc (render_step s) = step_fun private acc s.
+Proof.
+  destruct s as [n h]. unfold derive_component, step_fun, render_step. cbn [fst snd].
+  destruct acc as [w|e]; [|reflexivity]. cbn [bind].
+  destruct (render_dec_spec n) as (H1 & H2 & _).
+  destruct h.
+  - rewrite ends_with_quote_app. unfold drop_last. rewrite removelast_last, py_int_render. reflexivity.
+  - rewrite app_nil_r, ends_with_quote_digits by exact H2. rewrite py_int_render. reflexivity.
+Qed.
+
+(* path-string derivation = step-by-step derivation, for every non-empty list of steps,
+   every index (also >= 2^31 and >= 2^32, where both sides fail alike), both modes *)
+Lemma derive_from_path_render w steps private : steps <> [] ->
+  derive_from_path P w (render_path steps) private = fold_left (step_fun private) steps (Ok w).
+Proof.
+  intros Hne. unfold render_path, derive_from_path.
+  change (lstrip_m_slash ("m"%char :: slash :: join_slash (map render_step steps)))
+    with (lstrip_m_slash (join_slash (map render_step steps))).
+  assert (Hj : exists c r, join_slash (map render_step steps) = c :: r /\ is_digit c = true).
+  { destruct steps as [|s steps]; [congruence|].
+    destruct (render_step_shape s) as (c & r & E & Hc & _).
+    cbn [map]. destruct (map render_step steps) as [|b l].
+    - exists c, r. cbn [join_slash]. auto.
+    - exists c, (r ++ slash :: join_slash (b :: l)).
+      change (join_slash (render_step s :: b :: l)) with (render_step s ++ slash :: join_slash (b :: l)).
+      rewrite E. auto. }
+  destruct Hj as (c & r & Ej & Hc). rewrite Ej, lstrip_m_slash_digit by exact Hc. rewrite <- Ej.
+  rewrite split_join.
+  - generalize (Ok w). induction steps as [|s steps IH]; intros acc; [reflexivity|].
+    cbn [map fold_left]. rewrite derive_component_render.
+    destruct steps as [|s' steps]; [reflexivity|]. apply IH. discriminate.
+  - destruct steps; [congruence|discriminate].
+  - apply Forall_forall. intros x Hx. apply in_map_iff in Hx as (s & <- & _).
+    destruct (render_step_shape s) as (_ & _ & _ & _ & H). exact H.
+Qed.
+
+End PathString.
